@@ -93,6 +93,9 @@ def ref_key(o, src, a):
             a["origin"], a["med"], 1 if group_i(src) else 0, k8, -1 if src[4] is None else src[4])
 
 
+STALE = "stale-order-after-incomparable-candidate"
+
+
 def med_comparable(o, live):
     if o[0]:
         return True
@@ -193,6 +196,7 @@ def gen_group(rng, gid):
                 keys.remove(k)
         line_ops = " ".join("(%s %s)" % (k, cand_sx(t, srcs[i], 0, a)) for k, i, t, a in seq)
         cases.append({"gid": gid, "o": o, "srcs": srcs, "live": live, "final_tags": [t for t, _ in final],
+                      "announced": [(srcs[i], a) for k, i, t, a in seq if k == "a"],
                       "line": "hist %d %d %d (%s)" % (o[0], o[1], o[2], line_ops), "nops": len(seq), "mix": mix})
     return cases
 
@@ -211,6 +215,20 @@ def witness_group():
         cases.append({"gid": -1, "o": o, "srcs": srcs, "live": live, "final_tags": [1, 2, 3],
                       "line": "hist 0 0 0 (%s)" % line_ops, "nops": 3, "mix": "c+i"})
     return cases
+
+
+def stale_witness_group():
+    """The witness of Decision.Proofs.stale_order_after_withdrawal_refuted, replayed on the implementation: the live set
+    {1, 3} is pairwise MED-comparable, candidate x (empty AS_PATH) was not, and was withdrawn."""
+    s1 = (65100, LOCALAS, 22, 9, 167772163, 1)
+    s3 = (65001, LOCALAS, 22, 9, 167772164, 0)
+    sx = (65001, LOCALAS, 22, 9, 167772173, 0)
+    base = dict(llgr=0, nhinv=0, lp=90, origin=0, ts=5)
+    a1, a3, ax = dict(base, segs="((2 (65001)))", med=0), dict(base, segs="((2 (65001 7)))", med=5), dict(base, segs="()", med=5)
+    o = (0, 1, 0)
+    line = "hist 0 1 0 ((a %s) (a %s) (a %s) (w %s))" % (cand_sx(3, s3, 0, a3), cand_sx(10, sx, 0, ax), cand_sx(1, s1, 0, a1), cand_sx(0, sx, 0, ax))
+    return [{"gid": -2, "o": o, "srcs": [s1, s3], "live": [(s1, a1), (s3, a3)], "final_tags": [1, 3], "announced": [(s3, a3), (sx, ax), (s1, a1)],
+             "line": line, "nops": 4, "mix": "e+c"}]
 
 
 def parse_out(out):
@@ -241,12 +259,17 @@ def oracle(case, out):
     bytag = {str(t): (s, a) for t, (s, a) in zip(ftags, live)}
     hyp = med_comparable(o, live) and kinds_ok(o, live)
     if hyp:
+        # every candidate that was ever in the list during this history, not only the live ones: a candidate that is not
+        # MED-comparable with the others (or mixes confederation-eBGP with iBGP) makes the comparator non-transitive, and the
+        # list, kept in order by binary-search insertion, can stay mis-ordered after that candidate has been withdrawn
+        past = case.get("announced") or live
+        stale = "" if (med_comparable(o, past) and kinds_ok(o, past)) else STALE
         want = [str(t) for t, _ in sorted(zip(ftags, live), key=lambda x: ref_key(o, x[1][0], x[1][1]))]
         if known != want:
-            return ("order-not-documented", "known-path order differs from the documented decision process")
+            return (stale or "order-not-documented", "known-path order %s differs from the documented decision process %s%s" % (known, want, " (a since-replaced or withdrawn candidate was not comparable with the others)" if stale else ""))
         wbest = want[0] if not bytag[want[0]][1]["nhinv"] else "none"
         if best != wbest:
-            return ("best-not-documented", "best path is not the one the documented decision process prefers")
+            return (stale or "best-not-documented", "best path is not the one the documented decision process prefers")
     # multipath: prefix of the list that compares equal to the head (and is reachable)
     head = bytag[known[0]]
     wm = []
@@ -275,6 +298,8 @@ def group_oracle(group_cases, outs):
     if len(res) > 1:
         if not kinds_ok(c0["o"], c0["live"]):
             return ("order-dependence-confed-ebgp-vs-ibgp", "best path depends on arrival order (confederation-eBGP and iBGP candidates, Age vs NeighborAddress cycle)")
+        if any(not (med_comparable(c["o"], c.get("announced") or c["live"]) and kinds_ok(c["o"], c.get("announced") or c["live"])) for c in group_cases):
+            return (STALE, "best path depends on the history: in one of the histories a since-replaced or withdrawn candidate was not comparable with the others")
         return ("order-dependence", "best path / multipath set depends on the arrival order")
     return None
 
@@ -288,7 +313,7 @@ def run(ctx):
         proof["log"] = glog
     ctx.say("proof stage: ok=%s theorems=%d audit=%d (%.1fs)" % (proof["ok"], len(proof["theorems"]), len(proof["audit"]), proof.get("wall_s", 0)))
     ngroups = ctx.scale(4000, 80000)
-    groups = [witness_group()] + [gen_group(ctx.rng, g) for g in range(ngroups)]
+    groups = [witness_group(), stale_witness_group()] + [gen_group(ctx.rng, g) for g in range(ngroups)]
     cases = [c for g in groups for c in g]
 
     outs_by_line = {}
